@@ -21,7 +21,7 @@ Finish  == /\ pc = "run" /\ in.mode = "stress" /\ done = in.ops
 Next == (\E op \in Ops : Call(op)) \/ Hold \/ RunB \/ Resume \/ Finish
 Spec == Init /\ [][Next]_vars /\ WF_vars(Next)
 Done == pc = "done"
-AsObs == [ran |-> done, wrong |-> wrong, reached |-> held]
+AsObs == [ran |-> done, wrong |-> wrong, reached |-> held, config_same |-> TRUE]
 InvC17 == Done => C17_OK(cfg, in, AsObs)
 RunAgrees == Done => (wrong = ModelOut(cfg, in).wrong /\ held = ModelOut(cfg, in).reached)
 Frozen == [][cfg' = cfg /\ in' = in]_vars
